@@ -444,3 +444,28 @@ func FuzzCronParse(f *testing.F) {
 		settle(t, sec, r, vk.FP("cron", c.Std, c.Opt, c.Spec))
 	})
 }
+
+// TestCronManyZones: a process that parses expressions for MANY distinct time zones (more than any plausible cache in
+// front of the zone database holds), several times over, in both prefix forms and through both kinds of parser; every
+// call must return. (A history-dependent hang or crash needs the history.)
+func TestCronManyZones(t *testing.T) {
+	sec := vk.Sec(t.Name())
+	loadable := 0
+	for round := 0; round < 3; round++ {
+		for i, z := range allZoneNames {
+			if _, err := time.LoadLocation(z); err != nil {
+				continue
+			}
+			if round == 0 {
+				loadable++
+			}
+			prefix := []string{"TZ=", "CRON_TZ="}[(i+round)%2]
+			spec := prefix + z + " " + []string{"0 12 * * *", "@daily", "*/5 * 1 * MON"}[(i+round)%3]
+			c := cronCase{Std: (i+round)%2 == 0, Opt: int(namedCronOpts[0]), Spec: spec, Instants: []time.Time{time.Date(2024, 3, 9, 23, 59, 30, 0, time.UTC)}, SlowBudget: 1}
+			settle(t, sec, runCron(c), vk.FP("manyzones", round, z))
+		}
+	}
+	if loadable < 300 {
+		t.Fatalf("C07 harness: only %d loadable zones", loadable)
+	}
+}
